@@ -85,14 +85,23 @@ def allowed (l : List Cidr) (ip : List Nat) : Bool := l.any (fun n => contains n
 inductive Entry where
   | skip                      -- empty after trimming: ignored
   | bad                       -- neither an address nor a CIDR: the whole list is refused
-  | net (c : Cidr)
+  | host (ip : List Nat)      -- no `/`: a single address, `ip` = what `net.ParseIP` returned for it
+  | net (c : Cidr)            -- with `/`: the network `net.ParseCIDR` returned
   deriving DecidableEq, Repr
+
+/-- `parseIPNet` for an entry without `/` (the branch is chosen by `strings.ContainsRune(s, '/')`):
+`&net.IPNet{IP: ip, Mask: net.CIDRMask(len(ip)*8, len(ip)*8)}` — all mask bits set, as many mask bytes as the
+address has.  Both shapes are regenerated facts; with anything else the model leaves the entry without a
+usable mask and the theorems about single-address entries no longer go through. -/
+def hostNet (ip : List Nat) : Cidr :=
+  { ip := ip, mask := if slashSelectsCidr && hostEntryFullMask then List.replicate ip.length 255 else [] }
 
 /-- `ParseAllowedIps`: `none` = error. -/
 def parseAllowed : List Entry → Option (List Cidr)
   | [] => some []
   | .skip :: es => parseAllowed es
   | .bad :: _ => none
+  | .host ip :: es => (parseAllowed es).map (hostNet ip :: ·)
   | .net c :: es => (parseAllowed es).map (c :: ·)
 
 def netsOf (l : List (List Nat × List Nat)) : List Cidr := l.map fun (i, m) => { ip := i, mask := m }
